@@ -24,7 +24,7 @@ done
 if [ "${1:-}" != "--no-seeded" ]; then
   for d in seeded/*/; do
     id=$(basename "$d"); prop=${id%-*}
-    grep -q "\"property_id\": \"$prop\"" MANIFEST.json || { echo "UNCLAIMED $id ($prop not claimed)"; continue; }
+    jq -e --arg p "$prop" '.checks[] | select(.property_id==$p)' MANIFEST.json >/dev/null || { echo "UNCLAIMED $id ($prop not claimed)"; continue; }
     run "$d/patch.diff" "$prop" "seeded/$id"
   done
 fi
